@@ -164,7 +164,7 @@ Next == \/ \E a \in Accts, b \in 0..MaxBal : Can /\ "setbalance" \in Ops /\ SetB
         \/ \E a \in Accts : Can /\ "withdraw" \in Ops /\ MaxDep > 0 /\ Withdraw(a)
         \/ \E a \in Accts : Can /\ "withdrawall" \in Ops /\ MaxDep > 0 /\ WithdrawAll(a)
         \/ \E a \in Accts : Can /\ "paysteps" \in Ops /\ MaxDep > 0 /\ PaySteps(a)
-        \/ \E s \in SnapSlots : Can /\ "snapshot" \in Ops /\ GetSnapshot(s)
+        \/ \E s \in SnapSlots \cap 1..MaxSnaps : Can /\ "snapshot" \in Ops /\ GetSnapshot(s)
         \/ \E s \in 1..MaxSnaps : Can /\ "reset" \in Ops /\ Reset(s)
         \/ Can /\ "clearcache" \in Ops /\ ClearCache
         \/ \E s \in 1..MaxSnaps : Can /\ "flush" \in Ops /\ Flush(s)
